@@ -146,6 +146,7 @@ type Sim struct {
 	Values map[string]any
 
 	ledgerBytes int64
+	deep        bool // preemption points inside computations are active
 }
 
 // S is the current run, nil outside a run.
@@ -281,6 +282,7 @@ func (s *Sim) initPolicy() {
 		}
 		s.pctLow = 0
 	}
+	s.deep = s.Sched.Draw(3) == 0
 }
 
 //go:norace
@@ -409,6 +411,30 @@ func Yield() {
 		t.blockWhat = ""
 		s.park(t, StRunnable)
 	}
+}
+
+// Preempt is a preemption point inside a computation (loop heads and function
+// entries of instrumented code). In a third of the runs ("deep" runs) the
+// running task is descheduled there with a small probability; in the others it
+// costs nothing and draws nothing, so their schedules are as before.
+//
+//go:norace
+func Preempt() {
+	s := S
+	if s == nil || !s.deep {
+		return
+	}
+	t := s.cur
+	if t == nil || !s.Sched.Permille(25) {
+		return
+	}
+	s.yields++
+	if s.yields > 4*s.cfg.MaxSteps {
+		return // the livelock guard lives in Yield
+	}
+	t.blockWhat = ""
+	s.Probes["preempted_inside_computation"]++
+	s.park(t, StRunnable)
 }
 
 //go:norace
